@@ -5,17 +5,21 @@ from .core import Finding, RuleResult, FactError, op_local, op_place
 from .lib_errdisc import closure_arg_body
 
 PROPERTY = "C09"
-TECHNIQUE = "GUARD: forward def-use tracking of candidate subframes to the return place with admission-idiom recognition"
+TECHNIQUE = ("GUARD: case-tree summary of the subframe chooser's result (effect interpreter with Option/bool combinators, "
+             "match and early returns as cases) + path-condition check per leaf; GUARD/stereo: control dependence of the "
+             "selected channel assignment on `<` between sums of real count_bits; the C08 size rules")
 EXPLANATION = (
-    "Decides the structural clause behind 'no frame larger than verbatim': in the subframe chooser (role: the function "
-    "returning SubFrame that calls Verbatim::count_bits_from_metadata) every non-verbatim, non-constant candidate "
-    "(value of type SubFrame / Option<SubFrame> produced by a crate function) can reach the return place only through "
-    "an admission idiom - bool::then_some / bool::then / Option::filter - whose condition is `<`/`<=` between "
-    "BitRepr::count_bits of THAT candidate (its real size, not an estimate) and a bound that is data-dependent on the "
-    "verbatim baseline; the fallback closure of the final unwrap_or_else constructs Verbatim; the constant subframe is "
-    "exempt (8+bps <= 8+n*bps). In the stereo chooser the channel assignment differs from Independent only under a "
-    "`<` comparison whose operands derive from real count_bits sums. The saturating cost tables and the 2-byte slack "
-    "arithmetic are NOT decided.")
+    "Decides the structural clause behind 'no frame larger than verbatim': the result of the subframe chooser (role: the "
+    "function returning SubFrame that calls Verbatim::count_bits_from_metadata) is summarised as a case tree; every "
+    "feasible leaf is a verbatim subframe, a constant subframe (exempt: 8+bps <= 8+n*bps), or a candidate C produced by a "
+    "crate function whose path conditions contain `count_bits(C) < B` (or <=) with B the verbatim baseline, "
+    "min(baseline, ..) or a value itself bounded that way on the path - the real size of THAT candidate, not an estimate; "
+    "at least one leaf is verbatim (the fallback). The spelling does not matter: bool::then_some / Option::filter / or / "
+    "unwrap_or_else chains, `match`, `if` with early return are all cases. In the stereo chooser the channel assignment "
+    "differs from Independent only under a `<` comparison whose operands derive from real count_bits sums (loop with a "
+    "running minimum, or an argmin fold seeded with the independent size). The guards compare count_bits values, which "
+    "are emitted sizes only if write == count_bits: the C08 size rules run here too. The saturating cost tables and the "
+    "2-byte slack arithmetic are NOT decided.")
 NOT_DECIDED = "cost-table saturation; exact slack arithmetic; that count_bits equals the written size (C08)"
 ASSUMPTIONS = ["BitRepr::count_bits is the real size (decided separately under C08)"]
 
